@@ -105,7 +105,19 @@ func loopBound(c *Counter) (bound ssa.Value, op token.Token) {
 		return nil, token.ILLEGAL
 	}
 	if b.X == c.Phi {
+		// i <= n-1  ≡  i < n
+		if b.Op == token.LEQ {
+			if sub, ok := b.Y.(*ssa.BinOp); ok && sub.Op == token.SUB {
+				if k, isK := ssau.ConstInt(sub.Y); isK && k == 1 {
+					return sub.X, token.LSS
+				}
+			}
+		}
 		return b.Y, b.Op
+	}
+	// n > i  ≡  i < n
+	if b.Y == c.Phi && b.Op == token.GTR {
+		return b.X, token.LSS
 	}
 	return nil, token.ILLEGAL
 }
@@ -161,16 +173,27 @@ func HDR2(e *Env, ft *FormatTokens) {
 			bodyWrites = append(bodyWrites, c)
 		}
 	})
-	// the vertex element literal: the Element whose Count derives from AttributeLength
+	// the vertex element literal: the Element that receives the result of Properties();
+	// the face element: the one whose Count is PrimitiveCount()
 	var vertexEl, faceEl ssa.Value
 	var vertexCount, faceCount *ssa.Call
 	for _, a := range literalSites(fn, func(t *types.Named) bool { return t.Obj().Name() == "Element" && t.Obj().Pkg().Path() == PlyPath }) {
 		st := fieldStores(a)
+		isVertex := false
+		if s := st["Properties"]; len(s) == 1 {
+			for _, p := range propsCalls {
+				if flowsInto(p, s[0].Val) {
+					isVertex = true
+				}
+			}
+		}
 		if s := st["Count"]; len(s) == 1 {
-			if c := meshCall(s[0].Val, "AttributeLength"); c != nil {
-				vertexEl, vertexCount = a, c
+			if isVertex {
+				vertexEl, vertexCount = a, meshCall(s[0].Val, "AttributeLength")
 			} else if c := meshCall(s[0].Val, "PrimitiveCount"); c != nil {
 				faceEl, faceCount = a, c
+			} else if c := meshCall(s[0].Val, "AttributeLength"); c != nil && vertexEl == nil {
+				vertexEl, vertexCount = a, c
 			}
 		}
 	}
